@@ -1,4 +1,32 @@
-(* placeholder *)
-From Coq Require Import ZArith.
-Theorem C02_placeholder : True. Proof. exact I. Qed.
-Print Assumptions C02_placeholder.
+(* C02 -- compressed (RV32C) instructions encode exactly as specified, one-to-one.  Statements only.
+   `encode` calls the GENERATED INSTRUCTIONS dictionary; decode16 / denote16 / operands16 / legal16 are the Spec. *)
+From Coq Require Import ZArith List String.
+From BB Require Import Base.PyBase Gen.Encoders Spec.RVC Spec.Operands Spec.Legal Model.Encode Proofs.C02Main.
+Import ListNotations.
+Open Scope Z_scope.
+
+(* every halfword the encoders of the 27 c.* mnemonics return (any operand spelling, ANY integer immediate)
+   is a legal RV32C encoding that decodes to the named operation, registers and immediate *)
+Theorem C02_forward :
+  forall name pos kw h, In name c_mnemonics -> encode name pos kw = Ok h ->
+    0 <= h < 2^16 /\
+    exists ops c, operands16 name pos = Some ops /\ legal16 name ops = true /\
+                  denote16 name ops = Some c /\ decode16 h = Some c.
+Proof. exact forward. Qed.
+Print Assumptions C02_forward.
+
+(* conversely every one of the 65 536 halfwords that is a legal, non-hint, non-reserved RV32C integer encoding
+   is produced from its canonical operands *)
+Theorem C02_converse :
+  forall h c, 0 <= h < 65536 -> decode16 h = Some c ->
+    encode (fst (name_ops16 c)) (map AInt (snd (name_ops16 c))) [] = Ok h.
+Proof. exact converse. Qed.
+Print Assumptions C02_converse.
+
+(* accepted operand tuples and halfwords correspond one-to-one *)
+Theorem C02_injective :
+  forall name p1 k1 p2 k2 h, In name c_mnemonics ->
+    encode name p1 k1 = Ok h -> encode name p2 k2 = Ok h ->
+    exists ops, operands16 name p1 = Some ops /\ operands16 name p2 = Some ops.
+Proof. exact injective16. Qed.
+Print Assumptions C02_injective.
